@@ -1,2 +1,134 @@
-/- driver stub for C17: replaced when the model exists -/
-def main : IO Unit := pure ()
+/- driver for C17: commandable objects (stateful; values are natural-number codes)
+
+   requests
+     {"op":"reset","cls":<class name>,"def":n,"pv":n,"inactive":n,"active":n,"on":sec,"off":sec}
+          fresh object; `minOnOff` comes from the GENERATED class table, never from the harness
+     {"op":"w","prop":"pv"|"pa"|"other","v":n|null,"ai":int|null,"pr":int|null}
+          WriteProperty(prop, v, arrayIndex=ai, priority=pr)
+     {"op":"tick","t":µs}     the scheduler looks at the clock at absolute time t
+     {"op":"adv","t":µs}      let time pass up to t, the timer firing exactly when due
+     {"op":"seq", <reset fields>, "evs":[[pr|null, v|null], …]}
+          fresh object, then the presentValue commands in order; one digest per command
+   reply: {"r":"ok"|"err","k":…, "pv":n, "slots":[n|null ×16], "dl":µs|null, "now":µs, "br":…}
+-/
+import BacVerif.Drv.Common
+import BacVerif.Model.Commandable
+import BacVerif.Gen.Commandable
+open Lean BacVerif BacVerif.Drv BacVerif.Commandable
+
+structure D where
+  cfg : Cfg Nat
+  st : St Nat
+
+def jOptNat : Option Nat → Json
+  | none => Json.null
+  | some n => Json.num n
+
+def digest (s : St Nat) : List (String × Json) :=
+  [("pv", Json.num s.present),
+   ("slots", Json.arr ((slotList s).map jOptNat).toArray),
+   ("dl", jOptNat s.deadline),
+   ("now", Json.num s.now)]
+
+/-- branch class of a step, for coverage signatures only -/
+def branch (s s' : St Nat) (e : Option CErr) : String :=
+  match e with
+  | some k => k.name
+  | none =>
+    (if s'.present = s.present then "same" else "change") ++
+    (if s'.deadline = s.deadline then "" else if s'.deadline.isSome then "+arm" else "+disarm") ++
+    (if s'.slots 6 = s.slots 6 then "" else "+slot6")
+
+def reply (s s' : St Nat) (e : Option CErr) : Json :=
+  let head : List (String × Json) :=
+    match e with
+    | none => [("r", "ok")]
+    | some k => [("r", "err"), ("k", k.name)]
+  Json.mkObj (head ++ digest s' ++ [("br", Json.str (branch s s' e))])
+
+def optInt (j : Json) (k : String) : R (Option Int) :=
+  match fldOpt j k with
+  | none => pure none
+  | some v => do pure (some (← v.getInt?))
+
+def optNat (j : Json) (k : String) : R (Option Nat) :=
+  match fldOpt j k with
+  | none => pure none
+  | some v => do pure (some (← v.getNat?))
+
+def mkCfg (j : Json) : R (Cfg Nat × Nat) := do
+  let cls ← fldStr j "cls"
+  match BacVerif.Gen.Commandable.classes.find? (fun c => c.name == cls) with
+  | none => throw s!"class {cls} is not in the generated table of commandable classes"
+  | some c =>
+    let cfg : Cfg Nat :=
+      { default := ← fldNat j "def", minOnOff := c.minOnOff,
+        inactive := fldNatD j "inactive" 0, active := fldNatD j "active" 1,
+        minOn := fldNatD j "on" 0, minOff := fldNatD j "off" 0 }
+    pure (cfg, ← fldNat j "pv")
+
+/-- `adv`: fire the timer exactly when due (as the virtual clock does), then stop at t -/
+def advance (cfg : Cfg Nat) : Nat → St Nat → Nat → St Nat × Option CErr
+  | 0, s, _ => (s, some .recursion)
+  | fuel + 1, s, t =>
+    match s.deadline with
+    | some dl =>
+      if dl ≤ t then
+        match step cfg s (.tick dl) with
+        | (s', none) => advance cfg fuel s' t
+        | (s', some e) => (s', some e)
+      else step cfg s (.tick t)
+    | none => step cfg s (.tick t)
+
+def handle (d : D) (j : Json) : R (D × Json) := do
+  match ← fldStr j "op" with
+  | "reset" =>
+      let (cfg, pv) ← mkCfg j
+      let s := init pv
+      pure ({ cfg := cfg, st := s }, Json.mkObj ([("r", Json.str "ok")] ++ digest s ++ [("br", Json.str "reset")]))
+  | "w" =>
+      let prop ← match ← fldStr j "prop" with
+        | "pv" => pure PropId.presentValue
+        | "pa" => pure PropId.priorityArray
+        | "other" => pure PropId.other
+        | p => throw s!"unknown prop {p}"
+      let v ← optNat j "v"
+      let ai ← optInt j "ai"
+      let pr ← optInt j "pr"
+      let (s', e) := step d.cfg d.st (.write prop v ai pr)
+      pure ({ d with st := s' }, reply d.st s' e)
+  | "tick" =>
+      let t ← fldNat j "t"
+      let (s', e) := step d.cfg d.st (.tick t)
+      pure ({ d with st := s' }, reply d.st s' e)
+  | "adv" =>
+      let t ← fldNat j "t"
+      let (s', e) := advance d.cfg 8 d.st t
+      pure ({ d with st := s' }, reply d.st s' e)
+  | "seq" =>
+      let (cfg, pv) ← mkCfg j
+      let evs ← fldArr j "evs"
+      let mut s := init pv
+      let mut out : Array Json := #[]
+      let mut brs : Array Json := #[]
+      for e in evs do
+        let a ← e.getArr?
+        if a.size != 2 then throw "bad event"
+        let pr ← match a[0]! with
+          | Json.null => pure none
+          | x => do pure (some (← x.getInt?))
+        let v ← match a[1]! with
+          | Json.null => pure none
+          | x => do pure (some (← x.getNat?))
+        let (s', err) := step cfg s (command v pr)
+        out := out.push (Json.arr #[
+          (match err with | none => Json.null | some k => Json.str k.name),
+          Json.num s'.present, Json.arr ((slotList s').map jOptNat).toArray, jOptNat s'.deadline])
+        brs := brs.push (Json.str (branch s s' err))
+        s := s'
+      pure ({ cfg := cfg, st := s }, Json.mkObj [("r", "ok"), ("steps", Json.arr out), ("br", Json.arr brs)])
+  | op => throw s!"unknown op {op}"
+
+def main : IO Unit :=
+  loopS ({ cfg := { default := 0, minOnOff := false, inactive := 0, active := 1, minOn := 0, minOff := 0 },
+           st := init 0 } : D) handle
